@@ -88,7 +88,7 @@ GROUPS += [
 
 STATICS = ["add_row", "add_col", "add_rhs", "add_ranges", "add_bounds", "mps_fill_in"]
 GROUPS += [
-    Group("mps/sections%d" % NL, "mps_sections.c", tus=["mps_mpq.c", "read_mps_mpq.c", "allocrus.c", "util.c"], model=MODEL, dfcc=False, export_static=True, unwind=14, unwindset=["mpq_ILLread_mps.0:%d" % (NL + 2)], kind="bounded", namebuf=16, leak=True, timeout=1500, object_bits=11,
+    Group("mps/sections%d" % NL, "mps_sections.c", tus=["mps_mpq.c", "read_mps_mpq.c", "allocrus.c", "util.c"], model=MODEL, mem_gb=13, dfcc=False, export_static=True, unwind=14, unwindset=["mpq_ILLread_mps.0:%d" % (NL + 2)], kind="bounded", namebuf=16, leak=True, timeout=1500, object_bits=11,
           defines=["NLINES=%d" % NL], tier=tier,
           remove_bodies=["__CPROVER_file_local_mps_mpq_c_" + f for f in STATICS] + ["mpq_ILLmps_next_line", "mpq_ILLmps_error", "mpq_ILLmps_warn", "mpq_ILLmps_check_end_of_line"],
           bound="every file of at most %d lines, each a section header (ten keywords or an unknown word, field present or not) or a data line; loops completely unwound; reader buffer capacity 16" % NL,
